@@ -229,11 +229,11 @@ def run(scn):
         state["core"] = c
         return c
 
-    def logger_factory(core):
+    def logger_factory(core, *a, **k):
         for topic, typ, cb in (("sim_attitude", msgs.Attitude, spy_sim_att), ("imu", msgs.Imu, spy_imu), ("mag", msgs.Mag, spy_mag),
                                ("mrp_attitude", msgs.Attitude, spy_est), ("mrp_status", msgs.EstimatorStatus, spy_status)):
             uros.Subscriber(core, topic, typ, cb)
-        return RealLogger(core)
+        return RealLogger(core, *a, **k)
 
     harness_error = None
     data = None
